@@ -292,9 +292,14 @@ func runC03(r *core.Run) {
 						runtime.Gosched()
 					}
 				}
+				cur := -1
 				defer func() {
 					if p := recover(); p != nil {
 						r.Violate("first-use", "panic", fmt.Sprintf("first XYZ conversion panicked: %v", p), c03Case{Kind: "first-use"})
+						// the others must not wait at the remaining barriers for a goroutine that is gone
+						for k := cur + 1; k < len(arrive) && k < len(libSpaces); k++ {
+							arrive[k].Add(1)
+						}
 					}
 				}()
 				for si := range libSpaces {
@@ -316,6 +321,7 @@ func runC03(r *core.Run) {
 					in := [3]float32{0.25 + float32(g)/16, 0.5, 0.75 - float32(g)/16}
 					v := refcolor.Vec{float64(in[0]), float64(in[1]), float64(in[2])}
 					arrive[si].Add(1)
+					cur = si
 					for arrive[si].Load() < 8 {
 						if runtime.GOMAXPROCS(0) < 8 {
 							runtime.Gosched()
@@ -628,6 +634,81 @@ func runC03(r *core.Run) {
 					nb++
 					if kind != "" {
 						r.Violate("point", s.Name+"/"+kind+"/tiny", msg, c03Case{s.Name, kind, in, nil})
+					}
+				}
+			}
+			r.AddEvals(nb)
+			r.NTCount(nb)
+		}
+		// call sequences on one function at a time (c03Point above interleaves four calls): two colours
+		// in alternation (A, B, A, B), a colour right after a much larger one with which it shares two
+		// of its three components, and colours whose components span the float32 exponent range with
+		// the dominant one negative
+		{
+			rg := core.NewRNG(r.Seed, "C03", "sequences", s.Name)
+			var nb int64
+			one := func(dir int, in [3]float32, note string) {
+				nb++
+				v := refcolor.Vec{float64(in[0]), float64(in[1]), float64(in[2])}
+				var got [3]float32
+				var want refcolor.Vec
+				if dir == 0 {
+					x := s.ToXYZ(linear.RGB{R: in[0], G: in[1], B: in[2]})
+					got, want = [3]float32{x.X, x.Y, x.Z}, p.fwd.MulV(v)
+				} else {
+					c := s.FromXYZ(ciexyz.Color{X: in[0], Y: in[1], Z: in[2]})
+					got, want = [3]float32{c.R, c.G, c.B}, p.inv.MulV(v)
+				}
+				scale := math.Max(1, normInf3(in[0], in[1], in[2]))
+				for i := 0; i < 3; i++ {
+					if !(math.Abs(float64(got[i])-want[i]) <= c03Tol*scale*8) {
+						kind := []string{"linear-fwd", "linear-inv"}[dir]
+						r.Violate("point", s.Name+"/"+kind+"/sequence", fmt.Sprintf("%s %s(%v) = %v, the probed matrix gives %v (%s)", s.Name, []string{"ToXYZ", "ColorFromXYZ"}[dir], in, got, want, note), c03Case{s.Name, kind, in, nil})
+						return
+					}
+				}
+			}
+			rnd := func() [3]float32 {
+				return [3]float32{float32(rg.Uniform(-0.2, 1.2)), float32(rg.Uniform(-0.2, 1.2)), float32(rg.Uniform(-0.2, 1.2))}
+			}
+			for dir := 0; dir < 2; dir++ {
+				for i := 0; i < 400; i++ {
+					a, b := rnd(), rnd()
+					if i%5 == 0 {
+						b = [3]float32{a[0], a[1], b[2]}
+					}
+					for k := 0; k < 5; k++ {
+						one(dir, a, "alternating with another colour")
+						one(dir, b, "alternating with another colour")
+					}
+					c := rnd()
+					one(dir, c, "third colour")
+					one(dir, a, "after a third colour")
+				}
+				for _, big := range []float32{1e3, 1e6, 1e9, -1e6, 65536, 1e12} {
+					for ax := 0; ax < 3; ax++ {
+						for i := 0; i < 20; i++ {
+							b := rnd()
+							h := b
+							h[ax] = big
+							one(dir, rnd(), "some colour")
+							one(dir, h, "a large colour")
+							one(dir, b, fmt.Sprintf("right after %v, with which it shares two components", h))
+							h2 := [3]float32{big, big / 3, -big / 7}
+							one(dir, h2, "a large colour")
+							b2 := h2
+							b2[ax] = float32(rg.Uniform(0, 1))
+							one(dir, b2, fmt.Sprintf("right after %v, with which it shares two components", h2))
+						}
+					}
+				}
+				for _, dom := range []float32{-1.2676506e30, -1e30, 1e30, -1e20, -3e37, 3e37, -65536} { // -2^100 ...
+					for _, rest := range [][2]float32{{-9.313226e-10, -9.313226e-10}, {1e-20, 1e-20}, {0.5, 0.5}, {1e-20, -0.5}, {0, 1e-30}, {-1e-10, 0.25}} {
+						for ax := 0; ax < 3; ax++ {
+							var in [3]float32
+							in[ax], in[(ax+1)%3], in[(ax+2)%3] = dom, rest[0], rest[1]
+							one(dir, in, "components spanning the exponent range")
+						}
 					}
 				}
 			}
